@@ -110,11 +110,24 @@ func cmdCheck(args []string) int {
 	type unitOut struct {
 		res *UnitResult
 	}
-	results := make([]*UnitResult, len(roots))
+	// Dependency closure: a unit that uses a callee by its contract, or assumes a lemma, is only as good as the
+	// verification of that callee / lemma. Those units are added to the property's roots (transitively), so that a
+	// property's check never rests on obligations that only another property's check would discharge.
+	var results []*UnitResult
 	var wg sync.WaitGroup
 	var encMu sync.Mutex // encoding shares global caches; keep it sequential
 	sem := make(chan struct{}, 4)
-	for i, key := range roots {
+	seenRoot := map[string]bool{}
+	isDep := map[string]bool{}
+	var depMu sync.Mutex
+	queue := append([]string(nil), roots...)
+	for _, r := range roots {
+		seenRoot[r] = true
+	}
+	listed := len(roots)
+	var added []string
+	for qi := 0; qi < len(queue); qi++ {
+		key := queue[qi]
 		var res *UnitResult
 		if strings.HasPrefix(key, "framelemma:") {
 			res = encodeFrameLemma(p, db, strings.TrimPrefix(key, "framelemma:"))
@@ -125,26 +138,59 @@ func cmdCheck(args []string) int {
 		} else {
 			fn := p.Func(strings.TrimSuffix(key, "!safety"))
 			if fn == nil {
-				results[i] = &UnitResult{Key: key, Rejected: "no such function in the current tree"}
+				results = append(results, &UnitResult{Key: key, Rejected: "no such function in the current tree"})
 				continue
 			}
 			encMu.Lock()
 			res = encodeUnitMode(p, db, fn, strings.HasSuffix(key, "!safety"))
 			encMu.Unlock()
 		}
-		results[i] = res
+		results = append(results, res)
+		if *only == "" {
+			var deps []string
+			for _, k := range res.ByContract {
+				if ct := db.forFunc(k); ct != nil && ct.Mode == "contract" && p.Func(k) != nil {
+					deps = append(deps, k)
+				}
+			}
+			for _, l := range res.UsedLemmas {
+				if strings.HasPrefix(l, "frame:") {
+					deps = append(deps, "framelemma:"+strings.TrimPrefix(l, "frame:"))
+				} else {
+					deps = append(deps, "lemma:"+l)
+				}
+			}
+			for _, d := range deps {
+				depMu.Lock()
+				isDep[d] = true
+				depMu.Unlock()
+				if !seenRoot[d] {
+					seenRoot[d] = true
+					queue = append(queue, d)
+					added = append(added, d)
+				}
+			}
+		}
 		wg.Add(1)
 		sem <- struct{}{}
 		go func(res *UnitResult) {
 			defer wg.Done()
 			defer func() { <-sem }()
 			ts := time.Now()
-			solveUnit(res, Options{Timeout: timeout, NeedAgree: needAgree, Workers: 6, Only: func(o *Obligation) bool { return pd.ownsObligation(o) }})
+			solveUnit(res, Options{Timeout: timeout, NeedAgree: needAgree, Workers: 6, Only: func(o *Obligation) bool {
+				depMu.Lock()
+				dep := isDep[res.Key]
+				depMu.Unlock()
+				// a unit other units of this property use by contract must be discharged in full here
+				return dep || pd.ownsObligation(o)
+			}})
 			if os.Getenv("GOVC_DEBUG") != "" {
 				fmt.Fprintf(os.Stderr, "unit %s: %d obligations solved in %.1fs\n", res.Key, len(res.Obls), time.Since(ts).Seconds())
 			}
 		}(res)
 	}
+	_ = listed
+	roots = queue
 	wg.Wait()
 
 	// classify
@@ -205,7 +251,7 @@ func cmdCheck(args []string) int {
 			// not discharged: known finding?
 			handled := false
 			for _, k := range known {
-				if k.Property == pd.ID && k.Obligation == o.Name && k.Status == "known" {
+				if k.Obligation == o.Name && k.Status == "known" {
 					ok, why := recheckExcept(res, o, k, timeout)
 					if ok {
 						knownLines = append(knownLines, fmt.Sprintf("KNOWN-FINDING: property=%s %s [%s]", pd.ID, k.What, o.Name))
